@@ -79,6 +79,11 @@ CHECKS = {
    text="DENSE HALF ONLY. For shapes 3x66, 2x64 (+1 spare word) and 3x130: new/get/set/swap_rows/resize, and for 3x66 also swap_columns (with hint), add_assign_rows (start_col respected as 'undefined left of it'), count_ones and get_row_iter over arbitrary ranges, all equal the plain two-dimensional bit array semantics from ANY word contents; since every word pattern of the right length is a reachable-or-not-but-valid state and each operation maps abstract pre-state to abstract post-state, sequences of any length follow by induction.",
    note="The SPARSE representation (SparseBinaryMatrix, SparseBinaryVec, column index, dense tail) is NOT covered: no CBMC verdict for three sets and two operations in 25 min and no way to construct an arbitrary valid symbolic state of it within reach; get_sub_row_as_octets / query_non_zero_columns / get_ones_in_column (Vec-building queries) are not covered in quick; shapes are small.",
    design="§4 C16"),
+ "C07": dict(level="translation_validation", engine="E3 + E1 + concrete flavour comparison",
+   technique="translation validation of the programs emitted under every solver flavour (sparse threshold 0/250/inf, direct solve vs plan, debug-assertion vs release) against one uniquely solvable RFC specification by finite-field SMT; Kani harnesses proving every arithmetic kernel equal to the same element-wise field operation; byte comparison of std/no_std builds, fresh/cached/explicit plans and debug/release through the public API",
+   text="Reduction to a common specification: each distinct encoder program for K' up to 26 (thorough 101 and 257) from 3 thresholds x {direct, plan} x {debug, release}, and decoder programs from scenarios at thresholds 0 and inf in both profiles, is certified for all data against the same RFC system, whose solution is unique - so the flavours agree; the decoder's verdict sequence is identical across 3 thresholds x 2 profiles; all 14 x86-64 kernels (one length each here, full claim in C11) equal the same polynomial-definition operation; std vs no_std builds, SourceBlockEncoder::new twice (second served by the plan cache), with_encoding_plan and Encoder::new, in debug and release, give byte-identical packets and decoded bytes for 7 block sizes.",
+   note="The optimiser, the no_std solver and the cache are compared on concrete runs only; concurrency (C17) is not applicable; NEON not compiled; trusted base as C06/C11.",
+   design="§4 C07"),
 }
 
 NOT_APPLICABLE = {
